@@ -173,7 +173,47 @@ def cbmc_job(workdir, name, harness_file, entry, enforce=None, replace=(), loop_
         except Exception:
             pass
         logs.append('--- %s: no answer within %ds (killed)' % (pr[0], timeout) if winner is None else '--- %s: stopped (another solver answered)' % pr[0])
-    if winner is None:
+    if winner is None and smt and time.time() < deadline:
+        # CBMC could not use a solver's answer (e.g. z3 returned `sat` with a model CBMC cannot parse, or `unknown`):
+        # dump the combined formula of all selected obligations and ask the raw solvers; `unsat` discharges them all,
+        # `sat` refutes at least one (unnamed).
+        ffile = os.path.join(workdir, name + '.all.smt2')
+        run(['cbmc', '--cvc5' if 'cvc5' in solvers else '--z3', '--outfile', ffile] + list(extra_cbmc) + sel + [b], cwd=workdir, timeout=120)
+        raw = []
+        if os.path.exists(ffile):
+            for sv_ in ('z3', 'z3-new', 'cvc5'):
+                tag = {'z3': 'z3', 'z3-new': 'z3new', 'cvc5': 'cvc5'}[sv_]
+                if tag in solvers and shutil.which(sv_):
+                    raw.append((tag, _popen([sv_, ffile], workdir)))
+        ans = None
+        while raw and time.time() < deadline and ans is None:
+            for sv_, p_ in list(raw):
+                if p_.poll() is None:
+                    continue
+                raw.remove((sv_, p_))
+                o = p_.stdout.read().decode('utf-8', 'replace')
+                first = o.strip().splitlines()[0].strip() if o.strip() else ''
+                logs.append('--- raw %s: %s' % (sv_, first))
+                if first in ('sat', 'unsat'):
+                    ans = (sv_, first)
+                    break
+            if ans is None and raw:
+                time.sleep(0.05)
+        for sv_, p_ in raw:
+            _kill(p_)
+        if ans:
+            sv_, first = ans
+            st_ = 'SUCCESS' if first == 'unsat' else 'FAILURE'
+            if first == 'unsat':
+                winner = (sv_ + '(raw)', [(pid, d, 'SUCCESS') for pid, d in props if pid in main_ids])
+            else:
+                r.obligations = [(pid, d, 'UNKNOWN') for pid, d in props if pid in main_ids and pid.startswith(prefixes)]
+                r.backend = sv_ + '(raw)'
+                r.failed = ['<at least one of %d obligations; the solver returned sat but its model is not readable by CBMC>' % len(main_ids)]
+                r.status, r.detail = 'refuted', 'raw solver answered sat on the conjunction of all obligations'
+    if r.status == 'refuted':
+        pass
+    elif winner is None:
         r.status, r.detail = 'undecided', 'no solver gave a definitive answer within %ds' % timeout
     else:
         sv, res = winner
